@@ -44,7 +44,11 @@ def expected_record(case: dict, cv, has_retry: bool):
             cands = oracles.recorded_failure_candidates(case, cv)
             lcf = cands[0]
             return ("record_failure", lcf[0].klass if lcf else "UNKNOWN")
-        return ("record_failure", "UNKNOWN")  # default_classifier on a scripted exception
+        # without a retry component the class comes from default_classifier (whose table is C19's subject)
+        from redress import default_classifier
+
+        x = cv.objs.get(cv.atts[-1].n - 1) if cv.atts else None
+        return ("record_failure", default_classifier(x).name if isinstance(x, BaseException) else "UNKNOWN")
     return None
 
 
